@@ -83,8 +83,25 @@ def node_level(ck, tier):
                 sn = nodeharness.SingleNode(net, chaingen.impl_state_from([g]), [], npeers=2)
                 sn.new_messages()
                 arrived = [g]
-                for nd in deliveries:
+                fail_at = len(deliveries) - 1 if trial % 3 == 2 else None      # a storage failure while the LAST block (the one
+                #                                                                that overtakes) is handled: fork choice is not storage
+                for di_, nd in enumerate(deliveries):
+                    if di_ == fail_at:
+                        import sqlite3
+                        st_ = sn.node.store
+                        orig_flush = st_.flush_blocks_to_disk
+                        state_ = {'n': 0}
+
+                        def failing_flush(_o=orig_flush):
+                            state_['n'] += 1
+                            if state_['n'] == 1:
+                                raise sqlite3.OperationalError('database is locked')
+                            return _o()
+                        st_.flush_blocks_to_disk = failing_flush
                     sn.deliver(rng.randrange(2), M.DataMessage(M.DATA_BLOCK, nd.block))
+                    if di_ == fail_at:
+                        st_.flush_blocks_to_disk = orig_flush
+                        ck.count('node-level/storage-failure-injected')
                     arrived.append(nd)
                     cs = sn.lp().chain_manager.coinstate
                     head, tips, index = impl_observe(cs)
@@ -127,6 +144,8 @@ def miner_level(ck, tier):
 def run(tier, seed):
     ck = common.Check('C04', tier, seed)
     nmax = 6 if tier == 'quick' else 7
+    if common.REDUCED:
+        nmax = 5
     ck.rule = ('ALL sequences in which arrival i+1 picks any of the i+1 earlier blocks as parent, for 1..%d arrivals after '
                'genesis (exhaustive: 1!+2!+...+%d! sequences), plus seeded random sequences of 12-40 arrivals; after each '
                'complete sequence the head, the tip set, the by-height index at every block and forks() of the real '
